@@ -23,7 +23,10 @@ verus! {
 //@include env/solution_types.vs
 //@include env/tour_spec.vs
 //@include env/ord_specs.vs
+//@include env/sums.vs
 //@include env/dist_ops.vs
+//@include env/vsum_impls.vs
+//@include env/cache_spec.vs
 //@include env/tour_accessors.vs
 //@item solution/src/tour.rs Tour::first_node
 //@retname r
@@ -144,23 +147,7 @@ pub proof fn lemma_position_of_contract(t: &Tour, node: NodeIdx, r: Result<usize
     }
 }
 
-pub open spec fn valid_real_tour(net: &Network, s: Seq<NodeIdx>) -> bool {
-    &&& s.len() >= 3
-    &&& net.sp_node(s[0]) is StartDepot
-    &&& net.sp_node(s[s.len() - 1]) is EndDepot
-    &&& no_depot(net, s.subrange(1, s.len() - 1))
-    &&& connected(net, s)
-}
-// stub with the contract text of slice tour_mod (R7a), caches clause omitted here
-//@item solution/src/tour.rs Tour::new_allow_invalid : trusted
-//@retname r
-//@sig
-    requires network.wf(), nodes@.len() >= 1, all_in_net(&network, nodes@), len_ok(nodes@),
-    ensures
-        r is Ok ==> valid_real_tour(&network, nodes@),
-        r is Ok ==> r->Ok_0.nodes@ == nodes@ && !r->Ok_0.is_dummy && r->Ok_0.network == network && r->Ok_0.wf(),
-        valid_real_tour(&network, nodes@) ==> r is Ok,
-//@end
+//@include-trusted env/tour_new_fns.vs
 //@item solution/src/tour.rs Tour::new
 //@retname r
 //@sig
@@ -168,7 +155,7 @@ pub open spec fn valid_real_tour(net: &Network, s: Seq<NodeIdx>) -> bool {
     ensures
         // C01: a tour handed out by Tour::new is a valid real tour, and every valid node sequence is accepted
         r is Ok <==> valid_real_tour(&network, nodes@), // @obl C01.tour_new.ok_iff_valid
-        r is Ok ==> r->Ok_0.nodes@ == nodes@ && !r->Ok_0.is_dummy && r->Ok_0.network == network && r->Ok_0.wf(),
+        r is Ok ==> r->Ok_0.nodes@ == nodes@ && !r->Ok_0.is_dummy && r->Ok_0.network == network && r->Ok_0.caches_ok() && r->Ok_0.wf(),
 //@closure-params map_err#0
     (Tour, String)
 //@closure map_err#0
